@@ -43,7 +43,9 @@ def build_extension():
         if os.path.exists(so):
             return so, None
         env = dict(os.environ, CARGO_NET_OFFLINE="true")
-        target = os.path.join(CACHE, "cargo-target")
+        # one private target directory per source hash (a shared one was observed to hand the artifact of a concurrent
+        # build of another checkout to this one); removed after the artifact is cached
+        target = os.path.join(CACHE, "ct-" + key)
         p = subprocess.run(["cargo", "build", "--release", "--offline", "--manifest-path", os.path.join(rust, "Cargo.toml"),
                             "--target-dir", target], env=env, capture_output=True, text=True, timeout=1200)
         if p.returncode != 0:
@@ -51,6 +53,7 @@ def build_extension():
         built = os.path.join(target, "release", "lib_pendulum.so")
         shutil.copyfile(built, so + ".tmp")
         os.replace(so + ".tmp", so)
+        shutil.rmtree(target, ignore_errors=True)
         return so, None
     finally:
         fcntl.flock(lock, fcntl.LOCK_UN)
